@@ -260,12 +260,15 @@ var Mined struct {
 	// NovelBudgets: integer constants above 4 MiB (up to 64 GiB) that the
 	// tree under test has and the pinned tree has not: process-wide limits
 	NovelBudgets []int64
+	// NovelRaw: the string constants (up to 16 bytes, whatever they hold -
+	// format verbs and blanks included) that are new in the tree under test
+	NovelRaw []string
 }
 
-var pinnedConstStrings = []string{"-", "----", "*********", "AUTH", "CONNACK", "CONNECT", "DISCONNECT", "Filters", "MQTT", "PINGREQ", "PINGRESP", "PUBACK", "PUBCOMP", "PUBLISH", "PUBREC", "PUBREL", "QoS", "SUBACK", "SUBSCRIBE", "UNDEFINED", "UNSUBACK", "UNSUBSCRIBE", "UserProperties", "Will", "empty", "filter", "filters", "invalid", "key", "malformed", "no", "unmarshal", "value"}
+var pinnedConstStrings = []string{" ", "  %v. %s\n", "  %v. %s: %q\n", "%T", "%s %s", "%s %s %s %v bytes", "%s %s %s%v %s %s %v bytes", "%s %s!", "%s %s! %s", "%s %v UnmarshalBinary: %w", "%s %v bytes", "%s ReadRemaining: %w", "%s p%v %s %v bytes", "%s p%v %s%s %v bytes", "%s p%v %v bytes", "%s p%v, %s, %v bytes", "%s, malformed! %s %s", "%s:%s", "*********", "-", "----", ":", "AUTH", "AssignedClientID: %q\n", "AuthData: %q\n", "AuthData: %v\n", "AuthMethod: %q\n", "AuthMethod: %v\n", "CONNACK", "CONNECT", "CleanStart: %v\n", "ClientID: %v\n", "ContentType: %v\n", "CorrelationData: %v\n", "DISCONNECT", "Duplicate: %v\n", "Filters", "KeepAlive: %v\n", "MQTT", "MaxPacketSize: %v\n", "MaxQoS: %v\n", "MessageExpiryInterval: %v\n", "PINGREQ", "PINGRESP", "PUBACK", "PUBCOMP", "PUBLISH", "PUBREC", "PUBREL", "PacketID: %v\n", "Password: %q\n", "Payload: %v\n", "PayloadFormat: %v\n", "ProtocolName: %v\n", "ProtocolVersion: %v\n", "QoS", "QoS: %v\n", "ReadPacket: %w", "Reason: %v\n", "ReasonCode: %v\n", "ReasonCodes: %v\n", "ReasonString: %q\n", "ReasonString: %v\n", "ReceiveMax: %v\n", "RequestProblemInfo: %v\n", "RequestResponseInfo: %v\n", "ResponseInformation: %q\n", "ResponseTopic: %v\n", "Retain: %v\n", "RetainAvailable: %v\n", "SUBACK", "SUBSCRIBE", "ServerKeepAlive: %v\n", "ServerReference: %q\n", "SessionExpiryInterval: %v\n", "SessionPresent: %v\n", "SharedSubAvailable: %v\n", "SubIdentifiersAvailable: %v\n", "SubscriptionID: %v\n", "SubscriptionIDs: %v\n", "TopicAlias: %v\n", "TopicAliasMax: %v\n", "TopicName: %v\n", "UNDEFINED", "UNSUBACK", "UNSUBSCRIBE", "UserProperties", "Username: %v\n", "WildcardSubAvailable: %v\n", "Will", "cannot use rawdata as property", "cannot write %T", "empty", "filter", "filters", "invalid", "key", "malformed", "malformed bool", "missing data", "no", "no filters!", "packet ID", "size exceeded", "sub ID", "too large", "topic name", "topic:%v", "unknown property id 0x%02x", "unmarshal", "value"}
 
 // the integer constants of the pinned tree (priority only, see LoadMined)
-var pinnedConstInts = []int64{2, 3, 4, 5, 6, 7, 8, 9, 11, 16, 17, 18, 19, 21, 22, 23, 24, 25, 26, 28, 31, 32, 33, 34, 35, 36, 37, 38, 39, 40, 41, 42, 48, 49, 50, 64, 80, 96, 98, 100, 110, 112, 114, 115, 117, 119, 127, 128, 129, 130, 131, 132, 133, 134, 135, 136, 137, 138, 139, 140, 141, 142, 143, 144, 145, 146, 147, 148, 149, 150, 151, 152, 153, 154, 155, 156, 157, 158, 159, 160, 161, 162, 176, 192, 208, 224, 231, 240, 249, 65535, 2097152, 268435455}
+var pinnedConstInts = []int64{2, 3, 4, 5, 6, 7, 8, 9, 11, 16, 17, 18, 19, 21, 22, 23, 24, 25, 26, 28, 31, 32, 33, 34, 35, 36, 37, 38, 39, 40, 41, 42, 48, 49, 50, 64, 80, 96, 98, 100, 110, 112, 114, 115, 117, 119, 127, 128, 129, 130, 131, 132, 133, 134, 135, 136, 137, 138, 139, 140, 141, 142, 143, 144, 145, 146, 147, 148, 149, 150, 151, 152, 153, 154, 155, 156, 157, 158, 159, 160, 161, 162, 176, 192, 208, 224, 231, 240, 249, 65535, 2097152, 268435455, 1000000000}
 
 // LoadMined fills Mined from the instrumentation report (no report: empty).
 func LoadMined() {
@@ -392,6 +395,19 @@ func LoadMined() {
 		}
 	}
 	Mined.Strings = append(Mined.Strings, comp...)
+	for _, s := range f.ConstStrings {
+		if !pinnedS[s] && len(s) >= 1 && len(s) <= 16 && utf8.ValidString(s) && len(Mined.NovelRaw) < 12 {
+			Mined.NovelRaw = append(Mined.NovelRaw, s)
+		}
+	}
+	// error texts: the new string constants of the tree, whatever they hold
+	nt := 0
+	for _, s := range f.ConstStrings {
+		if !pinnedS[s] && len(s) >= 3 && len(s) <= 64 && utf8.ValidString(s) && !strings.Contains(s, "%") && nt < 8 {
+			env.ErrTexts = append(env.ErrTexts, s, s+" (normal)")
+			nt++
+		}
+	}
 	if len(Mined.Lens) > 90 {
 		Mined.Lens = Mined.Lens[:90]
 	}
